@@ -20,7 +20,6 @@ COMMON_ASSUMPTIONS = [
 EXTRA_OVERLAY = {}
 
 NOT_REACHED = {
-    "C08": "not reached: deciding P(v) = P(tovalue v) for gojq's primitives needs an overlay export shim into gojq's unexported functions (funcLength, funcIndex2, ...); not built in the session (DESIGN §6). The one defect known from reading (gojqx.Number.JQValueLength returns the number, not its absolute value) is therefore NOT detected by any check",
     "C20": "not reached: the engine has no goroutine scheduler (go statements, blocking channel operations and select are unsupported), so neither interleavings of the interrupt trigger with push/pop nor races on ctxstack.cancelFns can be executed (DESIGN §6)",
 }
 
@@ -449,4 +448,24 @@ PROPS["C19"] = {
     ],
     "assumptions": ["the order and content of batches is whatever gopacket's assembler delivers (arbitrary here)"],
     "outside": ["gopacket's assembler, defragmenter and layer parsers (third party: maps, pools, time): segmentations, interleavings, retransmissions, link types are NOT decided", "'nothing after the first missing byte' depends on the assembler's batch order"],
+}
+
+
+PROPS["C08"] = {
+    "level": "model_checking",
+    "explanation": "reduced form: the jq VM observes a decode value only through the JQValue methods; for each method the result on fq's wrappers (gojqx.Number/String/Boolean/Null with symbolic payloads; the struct and array decode values of the C03 trees, every value) is compared with the reference semantics of the corresponding jq primitive on the plain value (tovalue), written in the harness from the jq manual: length, type, tonumber, tostring, keys (as a set), has, key/index, slice, iteration",
+    "wall_quick": 900, "wall_thorough": 3600,
+    "harnesses": [
+        {"entry": "pkg/interp.VerifJQNumber", "clause": "number wrapper: tovalue/tonumber/type; length = absolute value; keys/has/key/index/slice/each are errors", "bounds": {"payload": "any int, 6 float classes, big integers <= 128 bits of either sign"}},
+        {"entry": "pkg/interp.VerifJQString", "clause": "string wrapper: length in code points, slice, errors", "bounds": {"text": "0..3 symbolic ASCII bytes"}},
+        {"entry": "pkg/interp.VerifJQOther", "clause": "boolean and null wrappers", "bounds": {}},
+        {"entry": "pkg/interp.VerifJQCompoundNested", "clause": "struct/array decode values of program nested vs their plain objects/arrays", "bounds": {"buffer_bytes": "0..6"}},
+        {"entry": "pkg/interp.VerifJQCompoundSeek", "clause": "program seek (out of order fields)", "bounds": {"buffer_bytes": "0..6"}},
+        {"entry": "pkg/interp.VerifJQCompoundNestedRoot", "clause": "program nestedroot", "bounds": {"buffer_bytes": "0..6"}},
+        {"entry": "pkg/interp.VerifJQCompoundLoop", "clause": "program loop (arrays up to 48 elements)", "bounds": {"buffer_bytes": "0..6"}},
+        {"entry": "pkg/interp.VerifJQCompoundRootArray", "clause": "program rootarray (gap fields inside an array)", "bounds": {"buffer_bytes": "0..6"}},
+    ],
+    "assumptions": ["the reference semantics of the jq primitives are written in the harness; gojq's own code (funcLength, funcIndex2, clamping, ...) is NOT executed: that the enumerated JQValue methods are all the ways the VM observes a value is an argument from gojq's structure, not a solver result",
+                    "documented differences encoded: struct keys compared as a set (input order), missing names give null"],
+    "outside": ["queries as such (the jq VM), regexp/string built-ins, tojson text, Sym/Actual selection (ScalarValue)"],
 }
